@@ -307,4 +307,4 @@ ASSUME = ['filter_candset is compared with filter_pair of an independently const
 if __name__ == '__main__':
     tier = sys.argv[1] if len(sys.argv) > 1 else 'quick'
     sys.exit(run_check('C06', tier, layers(tier), assumptions=ASSUME,
-                       cap_s=300 if tier == 'quick' else 6000))
+                       cap_s=900 if tier == 'quick' else 7200))
